@@ -14,6 +14,11 @@ import (
 
 func c13Gen(rng *rand.Rand, tier string) []Case {
 	var out []Case
+	// Leave() while the snapshotter is busy with a backlog, shutdown at once (real goroutines)
+	for i, c := range [][3]int{{30, 1500, 128 * 1024}, {30, 1000, 200}, {20, 2000, 128 * 1024}} {
+		out = append(out, Case{ID: fmt.Sprintf("burst%d", i), Tags: []string{"async", "burst-leave"}, Nontrivial: true,
+			Ops: []string{fmt.Sprintf("burstleave %d %d %d", c[0], c[1], c[2])}})
+	}
 	n := 400
 	if tier == "thorough" {
 		n = 6000
@@ -38,6 +43,7 @@ func init() {
 		ID: "C13",
 		Rule: "random lives of the real Snapshotter with a Leave() at a random position among ≤30 events (joins incl. multi-member, leave/failed, update/reap, user/query times, clock ticks, flush-interval elapsing, forced compactions, dumps) " +
 			"× rejoin-after-leave on/off × thresholds {0,1,64,200,128KiB} × unusual names; 30% through the real goroutines (NewSnapshotter/channel/Leave()/Wait), the rest through the synchronous hooks; then shutdown + reopen by the real NewSnapshotter; " +
+			"plus 3 burst cases: 20-30 lives each through the real goroutines with two joins and a backlog of 1000-2000 user events, Leave() and shutdown at once, restart (the leave must always have been recorded); " +
 			"non-trivial = at least one join in the life (the rejoin set before the leave is non-empty or was); distinct = distinct op sequence",
 		Gen:  c13Gen,
 		Exec: snapExec,
